@@ -57,6 +57,11 @@ type TLSConfig struct {
 	tlsConfig   *tls.Config
 	mu          sync.RWMutex
 	currentCert atomic.Pointer[tls.Certificate] // atomically updated for concurrent reads
+
+	// certHolder points at the certificate slot the listener reads. Clones
+	// share it, so that ReloadCertificates on the settings returned by
+	// GetExportOptions reaches the running listener. nil means &currentCert.
+	certHolder *atomic.Pointer[tls.Certificate]
 }
 
 // DefaultTLSConfig returns a TLS configuration with secure defaults
@@ -154,12 +159,16 @@ func (tc *TLSConfig) BuildConfig() (*tls.Config, error) {
 	}
 
 	// Store cert atomically for concurrent-safe access
-	tc.currentCert.Store(&cert)
+	if tc.certHolder == nil {
+		tc.certHolder = &tc.currentCert
+	}
+	holder := tc.certHolder
+	holder.Store(&cert)
 
 	// Create base TLS config using GetCertificate callback for hot-reload support
 	config := &tls.Config{
 		GetCertificate: func(*tls.ClientHelloInfo) (*tls.Certificate, error) {
-			return tc.currentCert.Load(), nil
+			return holder.Load(), nil
 		},
 		MinVersion:               tc.MinVersion,
 		MaxVersion:               tc.MaxVersion,
@@ -225,7 +234,11 @@ func (tc *TLSConfig) ReloadCertificates() error {
 
 	// Atomically update the certificate - the GetCertificate callback
 	// will pick up the new cert on the next TLS handshake
-	tc.currentCert.Store(&cert)
+	if tc.certHolder != nil {
+		tc.certHolder.Store(&cert)
+	} else {
+		tc.currentCert.Store(&cert)
+	}
 
 	return nil
 }
@@ -316,6 +329,7 @@ func (tc *TLSConfig) Clone() *TLSConfig {
 		MaxVersion:               tc.MaxVersion,
 		PreferServerCipherSuites: tc.PreferServerCipherSuites,
 		InsecureSkipVerify:       tc.InsecureSkipVerify,
+		certHolder:               tc.certHolder,
 	}
 
 	// Copy cipher suites slice
